@@ -33,7 +33,12 @@ theorem globals_written_only_by_registry_functions :
     globals.all (fun g => g.2.2.2 = [] || (registryVars.contains g.2.1 && g.2.2.2.all (allowedWriters.contains ·))) = true := by
   decide +kernel
 
-/-- C20: apart from the registries and read-only tables/sentinel errors there is no package-level state -/
+/-- C20: apart from the registries and read-only tables/sentinel errors there is no package-level state.  The
+    extractor follows named types to their definition and classifies initialisers (`&T{}`/`new(T)` = pointer, `T{}` of
+    a struct type = struct, value of another package's type = foreign, result of an unrecognised call = unknown, …):
+    a package-level OBJECT (pointer, struct, interface, chan, func, foreign, unknown) is not accepted, since its
+    pointer-receiver methods can mutate it without any assignment the writers pass would see (a shared reader, a
+    buffer pool, a cache behind a mutex …) -/
 theorem globals_kinds :
     globals.all (fun g => g.2.2.1 == "error" || g.2.2.1 == "map" || g.2.2.1 == "slice" || g.2.2.1 == "array" || g.2.2.1 == "scalar") = true := by
   decide +kernel
